@@ -28,6 +28,14 @@ def gen_cases(ck):
                       "param_mode": "random", "angle": float(ck.rng.uniform(0, 6.28)), "scale": float(10.0 ** ck.rng.uniform(-1, 1)),
                       "fit": ["dlite", "taubinSVD"][int(ck.rng.integers(2))], "nvariants": 3 if ck.tier == "quick" else 5,
                       "angle_limit": float(ck.rng.uniform(0.7, 0.95) * math.pi)})
+    for i in range(4 if ck.tier == "quick" else 24):
+        # tissues with junctions where four cells meet (which of the four interfaces a junction lists first depends on the storage)
+        mob = bool(i % 2)
+        cases.append({"type": "tissue", "seed": int(ck.rng.integers(1 << 30)), "tissue": ["quad", "quad2"][(i // 2) % 2], "sites": int(ck.rng.integers(18, 40)),
+                      "subset": None, "min_ridge": 0.005, "mobius": mob, "strength": float(ck.rng.uniform(0.4, 1.5)), "kmin": 1 if mob else 0,
+                      "kmax": int(ck.rng.choice([0, 3])) if not mob else 3, "param_mode": "random", "angle": float(ck.rng.uniform(0, 6.28)),
+                      "scale": float(10.0 ** ck.rng.uniform(-1, 1)), "fit": ["dlite", "taubinSVD"][i % 2], "nvariants": 4 if ck.tier == "quick" else 6,
+                      "angle_limit": float(ck.rng.uniform(0.7, 0.95) * math.pi)})
     return cases
 
 
